@@ -17,6 +17,9 @@ use parser::{ExprParser, StatementsParser};
 pub use program::verif::*;
 pub use y86_disasm::disassemble_to_string;
 
+/// the built-in preamble that `read_y86_hcl` puts in front of every user file
+pub fn y86_preamble() -> &'static str { ::program::Y86_PREAMBLE }
+
 thread_local! {
     /// iteration orders observed by the graph algorithms (see `program::verif::graph_sort`)
     pub static ITERATION_LOG: RefCell<Vec<String>> = RefCell::new(Vec::new());
